@@ -15,7 +15,8 @@ EXTENDS Integers, Sequences, FiniteSets, TLC
 CONSTANTS WithDisconnect, WithLocalClose, WithKeepAliveErr, WithCtxCancel,
           WithKeepAlive,      \* the keep-alive goroutine of the reconnecting client (reconnclient.go:109-131) is modelled
           BugKaNoCtxCheck,    \* finding F5: an error is stored although the keep-alive context was cancelled
-          BugKaNoDiscCheck    \* finding F17: ... although Disconnect had been called (ping interrupted by Disconnect)
+          BugKaNoDiscCheck,   \* finding F17: ... although Disconnect had been called (ping interrupted by Disconnect)
+          BugReaderAfterWrite \* the reader goroutine is started only after CONNECT has been written (seeded change c16g)
 
 VARIABLES
   st,        \* connState: "New","Active","Closed","Disconnected"
@@ -51,11 +52,12 @@ Init ==
   /\ kapc = "off" /\ kacancel = FALSE /\ rdisc = FALSE
 
 \* ---- Connect ----
-CInit ==   \* init(); muConnecting.Lock(); go serve; write CONNECT
+CInit ==   \* init(); muConnecting.Lock(); go serve; write CONNECT -- which may fail, also on a transport that stays open
   /\ cpc = "start"
-  /\ connecting' = TRUE /\ spc' = "read"
-  /\ IF topen THEN cpc' = "wait" /\ cres' = cres
-     ELSE cpc' = "done" /\ cres' = "writeerr"
+  /\ \E wok \in (IF topen THEN {TRUE, FALSE} ELSE {FALSE}) :
+       /\ spc' = IF BugReaderAfterWrite /\ ~wok THEN "off" ELSE "read"
+       /\ IF wok THEN cpc' = "wait" /\ cres' = cres /\ connecting' = TRUE
+          ELSE cpc' = "done" /\ cres' = "writeerr" /\ connecting' = FALSE
   /\ UNCHANGED <<st, err, topen, done, cl, serr, sl, dpc, dl, ack, peer, cb, discCalled, ended>> /\ UNCHANGED kavars
 
 CWait ==   \* select over connClosed / ctx / connAck
@@ -98,7 +100,7 @@ PeerMalformed ==
 
 \* ---- local Close / keep-alive error ----
 LocalClose ==
-  /\ WithLocalClose /\ topen /\ spc # "off"
+  /\ WithLocalClose /\ topen /\ cpc # "start"
   /\ topen' = FALSE /\ ended' = TRUE
   /\ UNCHANGED <<st, err, done, connecting, cpc, cres, cl, spc, serr, sl, dpc, dl, ack, peer, cb, discCalled>> /\ UNCHANGED kavars
 
@@ -218,7 +220,8 @@ ClosedHasError == \A i \in Idx("Closed") : cb[i].e # "nil"
 DisconnectedAtMostOnce == Cardinality(Idx("Disconnected")) <= 1
 NoClosedAfterDisconnected == \A i \in Idx("Disconnected") : \A j \in Idx("Closed") : j < i
 \* at rest (everything finished)
-AtRest == spc = "exit" /\ cpc = "done" /\ dpc \in {"idle", "ok", "err"} /\ kapc \in {"off", "stopped"}
+\* (a reader that was never started although Connect has run is reachable with BugReaderAfterWrite only)
+AtRest == (spc = "exit" \/ (spc = "off" /\ ended)) /\ cpc = "done" /\ dpc \in {"idle", "ok", "err"} /\ kapc \in {"off", "stopped"}
 ClosedExactlyOnceIfNoDisconnect == (AtRest /\ ~discCalled) => Cardinality(Idx("Closed")) = 1
 DisconnectedExactlyOnce == (AtRest /\ discCalled) => Cardinality(Idx("Disconnected")) = 1
 ClosedErrIsErr == \A i \in Idx("Closed") : AtRest => cb[i].e = err
